@@ -182,3 +182,74 @@ def dedup(seq: Sequence[Any]) -> List[Any]:
         if x not in out:
             out.append(x)
     return out
+
+
+# ---------------------------------------------------------------------------
+# C11: history
+# ---------------------------------------------------------------------------
+
+def complete_config(seeds: Sequence[Any], top: Any) -> List[Any]:
+    """SCXML addDescendantStatesToEnter/addAncestorStatesToEnter for target
+    states ``seeds`` below ``top``: the seeds, their ancestors up to and
+    including ``top``, and the default descent of every compound/parallel
+    state that has no member yet. Returned in document order."""
+    chosen: List[Any] = []
+
+    def add(n: Any) -> None:
+        if not any(n is c for c in chosen):
+            chosen.append(n)
+
+    for s in seeds:
+        cur = s
+        while cur is not None:
+            add(cur)
+            if cur is top:
+                break
+            cur = cur.parent
+    changed = True
+    while changed:
+        changed = False
+        for n in list(chosen):
+            if n.type == "compound":
+                if not any(c.parent is n for c in chosen):
+                    init = n.states.get(n.initial) if n.initial else None
+                    if init is not None:
+                        for d in default_descent(init):
+                            add(d)
+                        changed = True
+            elif n.type == "parallel":
+                for r in real_children(n):
+                    if not any(c is r for c in chosen):
+                        for d in default_descent(r):
+                            add(d)
+                        changed = True
+    order = {id(n): i for i, n in enumerate(doc_order(_root_of(top)))}
+    chosen.sort(key=lambda n: order[id(n)])
+    return chosen
+
+
+def _root_of(n: Any) -> Any:
+    while n.parent is not None:
+        n = n.parent
+    return n
+
+
+def history_ref(hist_node: Any, recorded: Optional[Sequence[Any]], resolve_default: Any) -> List[Any]:
+    """Expected active sub-configuration below (and including) the history
+    node's parent after a transition, taken from OUTSIDE the parent, that
+    targets ``hist_node``. ``recorded`` = descendants of the parent active when
+    it was last exited (None = never exited). ``resolve_default`` maps the
+    history node's declared default target string to a node (or None)."""
+    parent = hist_node.parent
+    if recorded:
+        if hist_node.history == "deep":
+            seeds = [n for n in recorded if n.type in ("atomic", "final")]
+        else:
+            seeds = [n for n in recorded if n.parent is parent]
+        return complete_config(seeds, parent)
+    tgt = hist_node.target_str
+    if tgt:
+        node = resolve_default(tgt)
+        if node is not None:
+            return complete_config([node], parent)
+    return complete_config([parent], parent)
